@@ -79,10 +79,10 @@ func VHC08Binding() {
 	shadow := vh.Choose("shadow", 2) == 1
 	pcheck := "print p0 is unknown, p1 is unknown, p2 is unknown"
 	if shadow {
-		pre = "p0 = 'GP0'; p1 = 'GP1'; p2 = 'GP2'\n" + pre
-		pcheck = "print p0, p1, p2"
+		pre = "p0 = 'GP0'; p1 = 'GP1'; p2 = 'GP2'; zz = 'GZZ'\n" + pre
+		pcheck = "print p0, p1, p2, zz"
 	}
-	retKind := vh.Choose("ret", 4)
+	retKind := vh.Choose("ret", 5)
 	ret := ""
 	switch retKind {
 	case 1:
@@ -91,10 +91,12 @@ func VHC08Binding() {
 		ret = "return"
 	case 3:
 		ret = "for (q in [1, 2]) { if (q == 2) { x = match (q) { z => { return 'deep' } } } }"
+	case 4:
+		ret = "for (ix = 0; ix < 3; ix++) { if (ix == 1) return ix }" // the value of ix at the return, not after another step
 	}
 	// a nested call that completed with a return value must not leak into f's own result
 	prog := "function h() { return 'H' }\nfunction f(" + plist + ") {\n" + body + "local = 'L'\nglob = 'G'\ntmp = h()\n" + ret + "\nprint 'fell off', tmp\n}\n" +
-		"{ glob = 'g0'\nx0 = $.a0\n" + pre + "r = f(" + args + ")\nprint 'r', r\nprint 'glob', glob\nprint local is unknown, z is unknown, q is unknown\n" + pcheck + "\nprint 'x0', x0, $.a0\n" + post + "}"
+		"{ glob = 'g0'\nx0 = $.a0\ngz = 'GZ'\nmz = match (5) { gz => gz + 1 }\n" + pre + "r = f(" + args + ")\nprint 'r', r\nprint 'glob', glob\nprint local is unknown, z is unknown, q is unknown\n" + pcheck + "\nprint 'x0', x0, $.a0\nprint gz, mz\n" + post + "}"
 	out, k := runProg(prog, doc)
 	want := ""
 	for i, p := range params {
@@ -113,10 +115,12 @@ func VHC08Binding() {
 		want += "r null\n"
 	case 3:
 		want += "r deep\n"
+	case 4:
+		want += "r 1\n"
 	}
 	want += "glob G\ntrue true true\n"
 	if shadow {
-		want += "GP0 GP1 GP2\n" // untouched by the call, whether or not a parameter had the name
+		want += "GP0 GP1 GP2 GZZ\n" // untouched by the call, whether or not a parameter or a pattern had the name
 	} else {
 		want += "true true true\n"
 	}
@@ -126,6 +130,7 @@ func VHC08Binding() {
 	} else {
 		want += "x0 null null\n"
 	}
+	want += "GZ 6\n" // a pattern name spelled like an existing variable of the same scope shadows it for the case only
 	want += postWant
 	vh.Reach("call evaluated")
 	vh.Assert(k == OK, "C08: a call with any argument count succeeds")
